@@ -162,22 +162,10 @@ Section Ops.
     | o :: r => match hand_edit_op f sp o with Some f' => hand_edit f' sp r | None => None end
     end.
 
-  (* potable command line: overrides then removals are collated in a dictionary keyed by the (section, key) as
-     typed -- a later entry for the same key replaces the value in place -- then additions in order *)
-  Definition same_target (o1 o2 : nat * op) : bool :=
-    Nat.eqb (fst o1) (fst o2) &&
-    match snd o1, snd o2 with
-    | (Override s k _ | Remove s k), (Override s' k' _ | Remove s' k') => sect_eqb s s' && key_eqb k k'
-    | _, _ => false
-    end.
-  Fixpoint collate_put (o : nat * op) (acc : list (nat * op)) : list (nat * op) :=
-    match acc with
-    | [] => [o]
-    | x :: r => if same_target x o then o :: r else x :: collate_put o r
-    end.
-  (* each override / removal comes with the spelling of the key as typed: the dictionary is keyed by the typed text *)
-  Definition cli_ops (overrides removes : list (nat * op)) (additions : list op) : list op :=
-    map snd (fold_left (fun acc o => collate_put o acc) (overrides ++ removes) []) ++ additions.
+  (* potable command line: all --override-item options, then all --remove-item options, then the --add-item options,
+     each group in the order given; nothing is collated (fix 3dcaed8: they used to be put in a dictionary keyed by the
+     label as typed) *)
+  Definition cli_ops (overrides removes additions : list op) : list op := overrides ++ removes ++ additions.
 
   (* --list-items: every item of every section, once *)
   Definition list_items (st : store V) : list (sect * key * V) :=
